@@ -541,11 +541,13 @@ def check(repo, run, tier):
     g(unitrules.path_tag_table, repo, run, 'C18.R8')
     g(unitrules.dump_entry, repo, run, 'C18.R7')
     g(unitrules.dump_table, repo, run, 'C18.R7')
+    g(unitrules.unquoted_scope_table, repo, run, 'C18.R9')
     g.done()
 
 
 def mutants(repo):
     return [
+        Mutant('unquoted-mode-never-switched-off', lambda r: in_func(r, 'AwesomeyamlDumper.serialize_node', "            if old is not None:", "            if old:"), ['C18.R9']),
         Mutant('excluded-metadata-none-by-default', lambda r: in_func(r, 'yaml.dump', "dumper.exclude_metadata = exclude_metadata or set()", "dumper.exclude_metadata = exclude_metadata and set()"), ['C18.R7']),
         Mutant('dump-returns-text-only-with-output', lambda r: in_func(r, 'yaml.dump', "    if output is None:\n        return ret", "    if output is not None:\n        return ret"), ['C18.R7']),
         Mutant('dump-leaves-own-file-open', lambda r: in_func(r, 'yaml.dump', "        close = True\n", "        close = False\n"), ['C18.R7']),
